@@ -48,6 +48,8 @@ def main():
     ap.add_argument("worktree")
     ap.add_argument("--checks", default=None)
     ap.add_argument("--only", default=None)
+    ap.add_argument("--lane", default=None, help="run the checks against a private copy of /repo (SEED_REPO) with a private scratch, "
+                                                 "so several seeds can be processed side by side; /repo itself is not touched")
     a = ap.parse_args()
     checks = (a.checks or a.pid).split(",")
     wt = a.worktree
@@ -92,14 +94,23 @@ def main():
         if not ok:
             continue
         # ---- 2. run the checks against /repo with the change applied
-        rc, out, err = sh(f"git apply {diff}", cwd=REPO)
+        target = REPO
+        cenv = dict(os.environ)
+        if a.lane:
+            target = f"/var/tmp/lane-{a.lane}/repo"
+            os.makedirs(target, exist_ok=True)
+            sh(["rsync", "-a", "--delete", "--exclude", "target", "--exclude", ".git", REPO + "/", target + "/"])
+            cenv["SEED_REPO"] = target
+            cenv["SEED_VERIF_SCRATCH"] = f"/var/tmp/lane-{a.lane}/scratch"
+            cenv.setdefault("SEED_VERIF_JOBS", "6")
+        rc, out, err = sh(f"git apply {diff}", cwd=target)
         if rc != 0:
             print("  does not apply to /repo:", err[:300])
             continue
         try:
             for c in checks:
                 t0 = time.time()
-                rc, out, err = sh([os.path.join(VERIF, "check"), c, "--tier", "quick"], cwd=VERIF, timeout=3600)
+                rc, out, err = sh([os.path.join(VERIF, "check"), c, "--tier", "quick"], cwd=VERIF, timeout=5400, env=cenv)
                 lines = [l for l in out.splitlines() if l.startswith(("VIOLATION", "OK", "KNOWN-FINDING"))]
                 und = [l for l in err.splitlines() if l.startswith("UNDECIDED")]
                 meta["checks"][c] = {"exit": rc, "lines": lines, "undecided": und[:5], "wall_s": round(time.time() - t0, 1)}
@@ -110,7 +121,8 @@ def main():
                 for l in und[:2]:
                     print("     ", l[:300])
         finally:
-            sh("git checkout -- .", cwd=REPO)
+            if not a.lane:
+                sh("git checkout -- .", cwd=REPO)
         # ---- 3. keep
         d = os.path.join(VERIF, "seeded", f"{a.pid}-{k}")
         os.makedirs(d, exist_ok=True)
@@ -121,7 +133,8 @@ def main():
         if os.path.isfile(notes):
             shutil.copy(notes, os.path.join(d, "notes.txt"))
         meta["what_i_ran"] = ("scratch worktree: git apply; cargo build --offline; cargo test --offline (339 passed); demo with/without; "
-                              "then git -C /repo apply; ./check <ids> --tier quick; git -C /repo checkout -- .")
+                              "then git -C /repo apply; ./check <ids> --tier quick; git -C /repo checkout -- ."
+                              + (" (this run: the patch was applied to a private copy of /repo's working tree passed to the check as SEED_REPO)" if a.lane else ""))
         with open(os.path.join(d, "meta.json"), "w") as f:
             json.dump(meta, f, indent=1)
     rc, out, err = sh("git status --porcelain", cwd=REPO)
